@@ -1,6 +1,7 @@
 import YardlModel.Evolution
 import YardlProofs.ConvRefl
 import YardlProofs.ConvFields
+import YardlProofs.ConvClasses
 
 /-!
 # C05 — Accepted schema evolution preserves data across versions
@@ -26,6 +27,13 @@ Proved here:
 * `added_field_conversions`, `added_field_round_trip` — adding a field, for every record and value: the reader
   zeroes the new field and keeps the others, the writer for the previous version drops it, and old data comes back
   unchanged; `integer_widening_round_trip`.
+* conversions between *different* types, for every well-formed simple type `T` (primitive, enum, record of any
+  depth) and every value of it — the documented partially compatible classes:
+  `made_optional_or_mandatory` (`T` ↔ `T?`: a value stays, null becomes the zero value of `T`) with
+  `optional_round_trip`; `joined_or_left_a_union` (`T` ↔ a union listing `T` at any position: the value is held in
+  `T`'s case; another case becomes the zero value) with `union_round_trip`; `optional_and_union_with_null`
+  (`T?` ↔ `[null, T, …]`); `vectors_convert_element_by_element` (order and length kept; the first element that cannot
+  be converted fails the whole read / write with that element's error).
 * `record_fields_convert_by_name`, `added_fields_are_defaulted`, `removed_fields_are_dropped`,
   `integer_narrowing_overflows` — the documented behaviours on concrete shapes (kernel-evaluated).
 * `primitive pairs`: the classes come from C06 (`primitive_change_table`, regenerated from source).
@@ -112,6 +120,95 @@ theorem integer_widening_round_trip (a b : Prim) (i lo hi lo' hi' : Int) (ha : p
       integer_conversion_checks_range b a i lo hi hb ha (Ne.symm hne) hra]
   have h1 : lo' ≤ i ∧ i ≤ hi' := ⟨by omega, by omega⟩
   simp [h1, hin]
+
+/-! ### conversions between different types: the documented partially compatible classes -/
+
+/-- a type made optional or mandatory (documented: partially compatible), for every well-formed simple type and
+    every value, in both directions (reader of an old stream, writer for an old version): a value stays what
+    it is, a missing value becomes the zero value of the type -/
+theorem made_optional_or_mandatory (reading : Bool) (fuel : Nat) (t : ETy) (v : Val)
+    (hs : isSimple t = true) (hw : wfT t = true) (hv : fitsT t v = true) (h : depth t ≤ fuel) :
+    conv reading (fuel + 1) t (.optional t) v = .ok (.some v) ∧
+    conv reading (fuel + 1) (.optional t) t (.some v) = .ok v ∧
+    conv reading (fuel + 1) (.optional t) t .none = .ok (zero (depth t + 1) t) :=
+  ⟨wrap_optional reading fuel t v hs hw hv h, unwrap_optional_some reading fuel t v hs hw hv h,
+   unwrap_optional_none reading fuel t hs⟩
+
+/-- old data of type `T` read by the version that made it optional and written back for the old version is unchanged -/
+theorem optional_round_trip (fuel : Nat) (t : ETy) (v : Val)
+    (hs : isSimple t = true) (hw : wfT t = true) (hv : fitsT t v = true) (h : depth t ≤ fuel) :
+    (match conv true (fuel + 1) t (.optional t) v with
+     | .ok w => conv false (fuel + 1) (.optional t) t w
+     | e => e) = .ok v := by
+  rw [wrap_optional true fuel t v hs hw hv h]
+  exact unwrap_optional_some false fuel t v hs hw hv h
+
+/-- the hypotheses are met by a record holding a vector and an enum -/
+example :
+    let t : ETy := .record 1 (.cons 10 (.vector (.prim .int32) none) (.cons 11 (.enum 2 false .int32 [(5, 0), (6, 1)]) .nil))
+    isSimple t = true ∧ wfT t = true ∧ fitsT t (.record [.list [.int 1], .int 1]) = true := by decide
+
+/-- a type that joins or leaves a union (documented: partially compatible): for every union that lists `T` at any
+    position, provided no earlier case is compatible with `T` (the converters take the first compatible case):
+    a `T` becomes the union's `T` case; the union's `T` case becomes the `T`, any other case the zero value of `T` -/
+theorem joined_or_left_a_union (reading : Bool) (fuel : Nat) (t : ETy) (v : Val) (i : Nat) (cs : ECases) (pre post : List (Option ETy))
+    (hs : isSimple t = true) (hw : wfT t = true) (hv : fitsT t v = true) (h : depth t ≤ fuel)
+    (hcs : cs.toList = pre ++ some t :: post)
+    (hpre : ∀ u, some u ∈ pre → (kcmp reading t u).matches = false ∧ (kcmp reading u t).matches = false) :
+    conv reading (fuel + 1) t (.union cs) v = .ok (.case (ofFull cs.toList pre.length) v) ∧
+    conv reading (fuel + 1) (.union cs) t (.case i v) =
+      if toFull cs.toList i = pre.length then .ok v else .ok (zero (depth t + 1) t) := by
+  refine ⟨wrap_union reading fuel t v cs pre post hs hw hv h hcs (fun u hu => (hpre u hu).1), ?_⟩
+  rw [unwrap_union reading fuel t i v cs pre post hs hw h hcs (fun u hu => (hpre u hu).2)]
+  simp [conv_self reading fuel t v hw hv h]
+
+theorem union_round_trip (fuel : Nat) (t : ETy) (v : Val) (cs : ECases) (pre post : List (Option ETy))
+    (hs : isSimple t = true) (hw : wfT t = true) (hv : fitsT t v = true) (h : depth t ≤ fuel)
+    (hcs : cs.toList = pre ++ some t :: post)
+    (hpre : ∀ u, some u ∈ pre → (kcmp true t u).matches = false)
+    (hpre' : ∀ u, some u ∈ pre → (kcmp false u t).matches = false)
+    (hnull : hasNullL cs.toList = true → pre ≠ []) :
+    (match conv true (fuel + 1) t (.union cs) v with
+     | .ok w => conv false (fuel + 1) (.union cs) t w
+     | e => e) = .ok v :=
+  Evo.union_round_trip fuel t v cs pre post hs hw hv h hcs hpre hpre' hnull
+
+/-- the hypotheses are met: `string` joins `[null, int32, string]` — null and `int32` come first and neither is
+    compatible with a string in the "matches" sense (int32 ↔ string is a *conversion*, not a match) -/
+example :
+    let t : ETy := .prim .string
+    let cs : ECases := .null (.cons (.prim .int32) (.cons (.prim .string) .nil))
+    cs.toList = [none, some (.prim .int32)] ++ some t :: [] ∧
+    (∀ u, some u ∈ [none, some (ETy.prim .int32)] → (kcmp true t u).matches = false ∧ (kcmp false u t).matches = false) ∧
+    conv true 2 t (.union cs) (.str [104]) = .ok (.case 1 (.str [104])) := by
+  refine ⟨rfl, ?_, rfl⟩
+  intro u hu
+  simp at hu
+  subst hu
+  exact ⟨rfl, rfl⟩
+
+/-- an optional that becomes a union with a null case, or the reverse (documented: partially compatible) -/
+theorem optional_and_union_with_null (reading : Bool) (fuel : Nat) (t : ETy) (v : Val) (rest : ECases) (i : Nat)
+    (hw : wfT t = true) (hv : fitsT t v = true) (h : depth t ≤ fuel) :
+    conv reading (fuel + 1) (.optional t) (.union (.null (.cons t rest))) (.some v) = .ok (.case 0 v) ∧
+    conv reading (fuel + 1) (.optional t) (.union (.null (.cons t rest))) .none = .ok .none ∧
+    conv reading (fuel + 1) (.union (.null (.cons t rest))) (.optional t) (.case 0 v) = .ok (.some v) ∧
+    conv reading (fuel + 1) (.union (.null (.cons t rest))) (.optional t) (.case (i + 1) v) = .ok .none ∧
+    conv reading (fuel + 1) (.union (.null (.cons t rest))) (.optional t) .none = .ok .none :=
+  ⟨(optional_to_union reading fuel t v rest hw hv h).1, (optional_to_union reading fuel t v rest hw hv h).2,
+   (union_to_optional reading fuel t v rest i hw hv h).1, (union_to_optional reading fuel t v rest i hw hv h).2.1,
+   (union_to_optional reading fuel t v rest i hw hv h).2.2⟩
+
+/-- vectors (and streams, converted item by item) whose element type changed: element by element, order and length
+    kept; the first element that cannot be converted fails the whole read / write with that element's error -/
+theorem vectors_convert_element_by_element (reading : Bool) (fuel : Nat) (s d : ETy) (l l' : Option Nat) :
+    (∀ (vs : List Val) (φ : Val → Val), (∀ v ∈ vs, conv reading fuel s d v = .ok (φ v)) →
+      conv reading (fuel + 1) (.vector s l) (.vector d l') (.list vs) = .ok (.list (vs.map φ))) ∧
+    (∀ (pre post : List Val) (x : Val) (m : String), (∀ v ∈ pre, ∃ w, conv reading fuel s d v = .ok w) →
+      conv reading fuel s d x = .err m →
+      conv reading (fuel + 1) (.vector s l) (.vector d l') (.list (pre ++ x :: post)) = .err m) :=
+  ⟨fun vs φ h => vector_elementwise reading fuel s d l l' vs φ h,
+   fun pre post x m h hx => vector_first_error reading fuel s d l l' pre post x m h hx⟩
 
 def recOld : ETy := .record 1 (.cons 10 (.prim .int32) (.cons 11 (.prim .string) (.cons 12 (.optional (.prim .int16)) .nil)))
 def recNew : ETy := .record 1 (.cons 11 (.prim .string) (.cons 13 (.vector (.prim .uint8) none) (.cons 10 (.prim .int64) .nil)))
